@@ -17,6 +17,7 @@
 #include <SQuIDS/detail/Verif.h>
 #include <gsl/gsl_matrix.h>
 #include <gsl/gsl_complex_math.h>
+#include <gsl/gsl_errno.h>
 #include "exact.h"
 #include <map>
 #include <thread>
@@ -45,6 +46,13 @@ struct Case {
 };
 
 static thread_local long ev_m = -1, ev_s = -1, ev_n = 0;
+// GSL reports misuse (e.g. a scratch matrix of the wrong size) through its error handler, which aborts by default;
+// record the first message instead so that it is reported as a failure of the call that caused it
+static thread_local int gsl_errs = 0;
+static thread_local char gsl_msg[160];
+static void gsl_handler(const char* reason, const char* file, int line, int) {
+  if (!gsl_errs++) snprintf(gsl_msg, sizeof gsl_msg, "%s (%s:%d)", reason, file, line);
+}
 static void sink(const char* tag, const void*, const void*, long a, long b) {
   if (std::string(tag) == "expm.branch") { ev_m = a; ev_s = b; ev_n++; }
 }
@@ -141,11 +149,12 @@ static void do_direct(long seq, int pos, Case& c) {
   gsl_matrix_complex* R = gsl_matrix_complex_alloc(n, n);
   for (int i = 0; i < n; i++) for (int j = 0; j < n; j++) gsl_matrix_complex_set(A, i, j, gsl_complex_rect(c.A(i, j).real(), c.A(i, j).imag()));
   gsl_matrix_complex_set_all(R, gsl_complex_rect(NAN, NAN));
-  ev_m = ev_s = -1; ev_n = 0;
+  ev_m = ev_s = -1; ev_n = 0; gsl_errs = 0;
   double tol = CFAC * n * EPS * std::max(1.0, c.nA) * c.nE;
   bool threw = false;
   try {
     math_detail::matrix_exponential(R, A);
+    if (gsl_errs) fail(seq, pos, c, "direct", "gsl-error/" + band_class(), gsl_errs, 0, std::string("GSL error raised inside matrix_exponential: ") + gsl_msg);
     Mat Rm(n);
     for (int i = 0; i < n; i++) for (int j = 0; j < n; j++) { gsl_complex z = gsl_matrix_complex_get(R, i, j); Rm(i, j) = cd(GSL_REAL(z), GSL_IMAG(z)); }
     // the argument must not be modified
@@ -172,13 +181,14 @@ static void do_utransform(long seq, int pos, Case& c) {
   double s = std::ldexp(M_PI / 4, c.sa);
   double nB = norm1col(c.B), nH = norm1col(c.H);
   double tol = CFAC * n * EPS * std::max(1.0, c.nA) * nB * 2;
-  ev_m = ev_s = -1; ev_n = 0;
+  ev_m = ev_s = -1; ev_n = 0; gsl_errs = 0;
   bool threw = false;
   try {
     SU_vector b = vec_from_matrix(c.B), v = vec_from_matrix(c.H);
     SU_vector b0 = b, v0 = v;
     SU_vector r = b.UTransform(v, gsl_complex_rect(0, s));
     long m1 = ev_m, s1 = ev_s;
+    if (gsl_errs) fail(seq, pos, c, "utransform", "gsl-error/" + band_class(), gsl_errs, 0, std::string("GSL error raised inside UTransform: ") + gsl_msg);
     Mat Rm = mat_of_vec(r);
     bool same = true;
     for (int q = 0; q < n * n; q++) if (b[q] != b0[q] || v[q] != v0[q]) same = false;
@@ -214,6 +224,7 @@ int main(int argc, char** argv) {
   if (argc > 1) CFAC = atof(argv[1]);
   bool hook = true;
   squids::verif::event_sink() = sink;
+  gsl_set_error_handler(&gsl_handler);
   std::ios::sync_with_stdio(false);
   std::string tag;
   long nseq = 0;
